@@ -338,9 +338,17 @@ def check_case(case):
             row = spec[0].copy()
             if tr["spike"] == "edges":
                 spike = 50.0 * max(float(row.max()), 1e-300)
-                for e in (b - reach + 1, b + reach - 1, b - reach, b + reach):
-                    row[e] += spike
+                for e, k_ in ((b - reach + 1, 1.0), (b + reach - 1, 1.7), (b - reach, 1.0), (b + reach, 1.7)):
+                    row[e] += k_ * spike
             base = sut(fn, f, row[None, :], np.array([f[b]]), bw, what=op)[0, 0]
+            # the kernels are even functions of f - fc: mirroring the spectrum about the centre bin changes nothing
+            mirrored = row.copy()
+            mirrored[b - reach:b + reach + 1] = row[b - reach:b + reach + 1][::-1]
+            refl = sut(fn, f, mirrored[None, :], np.array([f[b]]), bw, what=op)[0, 0]
+            if not close(refl, base, rtol=1e-12, atol=1e-300):
+                raise Violation(f"{op}(bw={bw}) on the grid rfftfreq({n}, {dt}): the output at bin {b} is {base!r}, but {refl!r} when the spectrum is "
+                                f"mirrored about that bin; the kernel is an even function of f - fc")
+            labels.append("reflection-symmetry")
             lo_e, hi_e = b - reach + 1, b + reach - 1                                  # outermost bins that may carry weight
             shifts = set()
             for j in range(1, int(math.log2(nf)) + 1):
